@@ -10,6 +10,7 @@ cd "$(dirname "$0")/.."
 VERIF_REPO="$wt" VERIF_NOEVIDENCE=1 ./vcheck "$cid" "$@" > "/tmp/mutrun-$cid-$$.log" 2>&1
 rc=$?
 grep -E "^VIOLATION|violations=|HARNESS-ERROR|KNOWN-FINDING" "/tmp/mutrun-$cid-$$.log" | cut -c1-220 | head -8
+if [ $rc -ne 0 ] && [ $rc -ne 1 ]; then echo "--- harness error, last lines:"; grep -v '^{"level' "/tmp/mutrun-$cid-$$.log" | grep -v "timing setup" | tail -15; fi
 echo "mutrun: patch=$(basename "$patch") check=$cid exit=$rc"
 rm -f "/tmp/mutrun-$cid-$$.log"
 git -C /repo worktree remove --force "$wt"
